@@ -33,7 +33,7 @@ type Program struct {
 	Logic         string
 	Goroutines    bool   // queue `go` statements and run them at blocking points (sequential model)
 	SQLSchema     string // file with the CREATE statements of the real database (sqlsym)
-	FastTimeoutMS int // timeout of the incremental solver before the stand-alone retry
+	FastTimeoutMS int    // timeout of the incremental solver before the stand-alone retry
 	Trace         bool
 	MergeOff      bool
 }
@@ -97,16 +97,18 @@ type Worker struct {
 	ID           int
 	err          error
 
-	globals  map[*ssa.Global]*Obj
-	globUndo  []globUndo
-	pending   []pendingGo
-	inGo      bool
-	globSaved map[*Obj]bool
-	restoring bool
-	initDone map[*ssa.Package]bool
-	inInit   int
-	objSeq   int
-	opaqueID int
+	globals       map[*ssa.Global]*Obj
+	globUndo      []globUndo
+	resyncs       int
+	timeoutFactor int
+	pending       []pendingGo
+	inGo          bool
+	globSaved     map[*Obj]bool
+	restoring     bool
+	initDone      map[*ssa.Package]bool
+	inInit        int
+	objSeq        int
+	opaqueID      int
 
 	// per path
 	prefix     []Decision
@@ -203,16 +205,36 @@ func (w *Worker) checkWith(extra *term.Term) solver.Result {
 	}
 	w.S.Send("(push 1)\n")
 	w.emitAssert(extra)
+	errsBefore := w.S.Stats.Errors
 	r := w.S.Check()
 	w.S.Send("(pop 1)\n")
 	if w.S.Dead {
 		w.reviveSolver()
 		w.S.Stats.Errors-- // a hard timeout is an inconclusive answer, not a solver error
+	} else if r == solver.Unknown && w.S.Stats.Errors > errsBefore && strings.Contains(w.S.LastError, "unknown constant") {
+		// the process lost definitions this side believes it has sent (seen only
+		// on an overloaded machine): start a new process, re-send the path
+		// condition and ask again; a second error stays an error
+		w.reviveSolver()
+		w.S.Stats.Errors--
+		w.S.Stats.Unknown--
+		w.S.Stats.Queries--
+		w.S.Send("(push 1)\n")
+		w.emitAssert(extra)
+		r = w.S.Check()
+		w.S.Send("(pop 1)\n")
+		w.resyncs++
 	}
 	if r == solver.Unknown {
 		// z3's incremental core can be far slower than its one-shot tactics
 		// (bit-blasting + SAT): retry the query as a stand-alone script
 		r, _ = w.checkFresh(extra, false)
+		if r == solver.Unknown {
+			// last resort (busy machine): once more with three times the budget
+			w.timeoutFactor = 3
+			r, _ = w.checkFresh(extra, false)
+			w.timeoutFactor = 1
+		}
 		if r != solver.Unknown {
 			w.S.Stats.Unknown-- // answered by the stand-alone retry
 		}
@@ -246,8 +268,13 @@ func (w *Worker) checkFresh(extra *term.Term, wantModel bool) (solver.Result, ma
 		w.S2 = s2
 	}
 	w.S2.Send("(reset)\n")
+	tf := w.timeoutFactor
+	if tf < 1 {
+		tf = 1
+	}
+	w.S2.TimeoutMS = w.P.TimeoutMS * tf
 	if w.P.TimeoutMS > 0 {
-		w.S2.Send(fmt.Sprintf("(set-option :timeout %d)\n", w.P.TimeoutMS))
+		w.S2.Send(fmt.Sprintf("(set-option :timeout %d)\n", w.P.TimeoutMS*tf))
 	}
 	w.TF.BeginFresh()
 	var sb strings.Builder
